@@ -225,6 +225,12 @@ struct Walker {
                 } else {
                     if (nl != nullptr) err("terminal entry holds a link in layer " + hex(pfx));
                     if (vp == nullptr) { err("terminal entry with null value in layer " + hex(pfx)); o << " V 0 0 0"; continue; }
+                    if (!value::is_value_ptr(vp)) {
+                        // inline value: the slot holds the value itself
+                        auto word = reinterpret_cast<std::uintptr_t>(vp);
+                        o << " V 8 " << std::hex << fnv(&word, 8) << std::dec << " 0";
+                        continue;
+                    }
                     ++n_values;
                     auto [gp, gsz, gal] = value::get_gc_info(vp);
                     (void) gp;
